@@ -332,6 +332,14 @@ def _map_rule(ctx, to_list: FuncInfo):
         ok, msg = judge(to_list, r.value, L, nonempty and not empty_branch)
         if empty_branch and isinstance(r.value, ast.List) and not r.value.elts:
             ok, msg = True, 'empty result for empty input'
+        elif isinstance(r.value, ast.Name) and r.value.id == L:
+            # the flattened input handed back as it is
+            if empty_branch:
+                ok, msg = True, 'the (empty) input list is the result for empty input'
+            else:
+                conds = [('' if p_ else 'not ') + ast.unparse(c_)[:40] for c_, p_ in abs_.facts_at(r)]
+                ok, msg = False, (f'the flattened lines are returned unprocessed under `{" and ".join(conds) or "no condition"}` '
+                                  f'(not the empty-input test): those lines get neither the indentation nor the bullet')
         if ok is None:
             run.error('C18.map', to_list.module.name, to_list.qualname, r, msg, node=r)
         else:
